@@ -169,3 +169,38 @@ Proof.
   destruct (all_hex_no_sep _ (all_hex_hex_digits 40 v)) as [A B]. unfold addr_hex, no_byte in *.
   split; intros [E|[E|E]]; try (unfold c_colon, c_slash, c_0, c_x in E; lia); auto.
 Qed.
+
+(* ---------- contract addresses: common.IsHexAddress / common.HexToAddress ---------- *)
+Definition addr_digits (s : bytes) : bytes := if has0x s then drop2 s else s.
+
+Lemma hexnum_acc_bound : forall ds acc, 0 <= acc ->
+  0 <= hexnum_acc acc ds < (acc + 1) * 16 ^ Z.of_nat (length ds).
+Proof.
+  induction ds as [|c ds IH]; intros acc Ha.
+  - unfold hexnum_acc. simpl. lia.
+  - unfold hexnum_acc. cbn [fold_left]. fold (hexnum_acc (acc * 16 + hv c) ds).
+    assert (Hc : 0 <= hv c < 16).
+    { unfold hv. destruct (hexval c) as [v|] eqn:E; [apply (hexval_range c v E)|lia]. }
+    specialize (IH (acc * 16 + hv c) ltac:(lia)).
+    replace (Z.of_nat (length (c :: ds))) with (Z.of_nat (length ds) + 1) by (simpl length; lia).
+    rewrite Z.pow_add_r by lia. rewrite Z.pow_1_r.
+    assert (Hp : 0 < 16 ^ Z.of_nat (length ds)) by (apply Z.pow_pos_nonneg; lia).
+    nia.
+Qed.
+
+(* every spelling IsHexAddress accepts - with 0x, with 0X, without prefix, any casing - is normalised to the
+   number its 40 digits denote *)
+Theorem contract_address_faithful s : is_hex_address s = true ->
+  hex_to_address s = hexnum (addr_digits s) /\ 0 <= hexnum (addr_digits s) < two160.
+Proof.
+  unfold is_hex_address. fold (addr_digits s). intros H. apply andb_true_iff in H as [Hl Hh].
+  apply Z.eqb_eq in Hl.
+  assert (Hb : 0 <= hexnum (addr_digits s) < two160).
+  { pose proof (hexnum_acc_bound (addr_digits s) 0 ltac:(lia)) as B. unfold hexnum.
+    unfold lenZ in Hl. rewrite Hl in B. rewrite two160_pow. simpl Z.of_nat. lia. }
+  split; [|exact Hb].
+  unfold hex_to_address, from_hex. fold (addr_digits s).
+  replace (Z.odd (lenZ (addr_digits s))) with false by (rewrite Hl; reflexivity).
+  unfold be_value. rewrite (decode_even 20) by (try assumption; unfold lenZ in Hl; lia).
+  fold (hexnum (addr_digits s)). apply Z.mod_small. exact Hb.
+Qed.
